@@ -55,6 +55,7 @@ class Bisync:
             ctx.missing(rid, APPLY)
         self.rfl = flow_of(self.run)
         self.afl = flow_of(self.apply)
+        self.batched = batched_renames(self.afl)      # deliveries staged into a container and renamed in a loop over it
         calls = self.rfl.calls_to(APPLY)
         if len(calls) != 1:
             ctx.missing(rid, 'run_bisync must call apply exactly once (found %d)' % len(calls))
